@@ -41,6 +41,9 @@ type vsa struct {
 	region map[*ssa.BasicBlock]bool // nil: whole function
 	entry  *ssa.BasicBlock
 	isCell func(addr ssa.Value) bool
+	// cellBit: for a cell that packs several boolean fields of one local struct into one value (field k is bit k),
+	// the bit an address stands for; -1 for the cell as a whole (nil: the cell is one scalar)
+	cellBit func(addr ssa.Value) int
 	// tables
 	sliceTab map[*ssa.Global][]int64         // evaluated element values
 	mapKeys  map[*ssa.Global]map[int64]bool  // key presence of scalar-keyed map literals
@@ -313,9 +316,16 @@ func (a *vsa) run() {
 				switch x.Op {
 				case token.MUL: // load
 					if a.isCell != nil && a.isCell(x.X) {
+						bit := -1
+						if a.cellBit != nil {
+							bit = a.cellBit(x.X)
+						}
 						for k := 0; k < n; k++ {
 							if set[k] {
 								t[k] = cell[k]
+								if bit >= 0 && cell[k].ok {
+									t[k] = aval{true, (cell[k].v >> uint(bit)) & 1}
+								}
 							}
 						}
 					} else if ia, ok := x.X.(*ssa.IndexAddr); ok {
@@ -406,8 +416,30 @@ func (a *vsa) run() {
 				}
 			case *ssa.Store:
 				if a.isCell != nil && a.isCell(x.Addr) {
+					bit := -1
+					if a.cellBit != nil {
+						bit = a.cellBit(x.Addr)
+					}
 					for k := 0; k < n; k++ {
-						if set[k] {
+						if !set[k] {
+							continue
+						}
+						switch {
+						case bit >= 0:
+							nv := get(x.Val, k)
+							if nv.ok && cell[k].ok {
+								cell[k] = aval{true, cell[k].v&^(1<<uint(bit)) | (nv.v&1)<<uint(bit)}
+							} else {
+								cell[k] = aval{}
+							}
+						case a.cellBit != nil:
+							// the struct assigned as a whole: only its zero value is understood
+							if kc, isC := x.Val.(*ssa.Const); isC && kc.Value == nil {
+								cell[k] = aval{true, 0}
+							} else {
+								cell[k] = aval{}
+							}
+						default:
 							cell[k] = get(x.Val, k)
 						}
 					}
